@@ -24,6 +24,7 @@ structure GAttrs where
   level : Nat := 3                           -- `write_level`
   ref : Option Path := none                  -- the `other` / `ref_pos` attribute: a reference by field name
   members : List (String × Option Kind) := []  -- the `fields` dict of a collection (none = collection)
+  sameAs : Option Path := none               -- `same_as`: the array of this field is stored in the group of that field
   src : Nat := 0                             -- *ghost*: the heap id of the array written here (never read)
   deriving Repr, Inhabited
 
@@ -88,9 +89,21 @@ def Field.level : Field → Nat
   | .leaf _ _ _ _ _ l => l
   | .coll _ _ l _ => l
 
+/-- `same_as = memo.get(id(self.data))`, taken when it is `not None and != fieldname` (`FieldType.write`, after the
+`fix:`): the memo of `_construct_memo` names, for an array held by several written fields, the last of them -/
+def aliasOf (memo : WMemo) (o : Nat) (p : Path) : Option Path :=
+  match memo.lookup o with
+  | some name => if name == p then none else some name
+  | none => none
+
 /-- `FieldType.write` / `CollectionField.write` of one field into the group `pre + [name]` -/
 def writeField (h : Heap) (lvl : Nat) : Field → Path → WMemo → M (Grp × WMemo)
   | .leaf nm _ o _ u l, pre, memo =>
+    match aliasOf memo o (pre ++ [nm]) with
+    | some name =>
+      -- the array is (also) the array of the written field `name`: stored there, this group only says so
+      .ok (.mk { fieldname := pre ++ [nm], src := o, unit := u, level := l, sameAs := some name } none [], memo)
+    | none =>
     match writeArr h u l (h.length + 1) o (pre ++ [nm]) memo with
     | .error e => .error e
     | .ok (g, memo') =>
@@ -226,11 +239,36 @@ def readMembers (rd : Option Kind → Grp → RSt → M (Field × RSt)) :
         | .error e => .error e
         | .ok (fs, s2) => .ok (f :: fs, s2)
 
+/-- `<FieldType>._read(h5_group, memo).data`: `if name in memo: memo[name] else <Array>._read(h5_group, memo)` -/
+def fieldRead (file : File) (fa : Nat) (g : Grp) (s : RSt) : M (Nat × RSt) :=
+  match s.memo.lookup g.attrs.fieldname with
+  | some o => .ok (o, s)
+  | none => readArr file fa g s
+
+/-- the `same_as` part of `FieldType.read` (after the `fix:`): the field named there is read first unless the memo
+knows it (`memo[same_as] = <its type>._read(file[same_as], memo).data`), then `memo[fieldname] = memo[same_as]` -/
+def resolveAlias (file : File) (fa : Nat) (a : GAttrs) (s : RSt) : M RSt :=
+  match a.sameAs with
+  | none => .ok s
+  | some name =>
+    match s.memo.lookup name with
+    | some o => .ok (s.set a.fieldname o)
+    | none =>
+      match lookupGrp file.groups name with
+      | none => .error .attribute
+      | some g =>
+        match fieldRead file fa g s with
+        | .error e => .error e
+        | .ok (o, s') => .ok ((s'.set name o).set a.fieldname o)
+
 /-- `FieldType.read` / `CollectionField.read`; `fa` bounds the length of reference chains, the second
 argument the nesting depth of collections -/
 def readField (file : File) (fa : Nat) : Nat → Option Kind → Grp → RSt → M (Field × RSt)
   | 0, _, _, _ => .error .fuel
-  | _ + 1, some k, .mk a p subs, s =>
+  | _ + 1, some k, .mk a p subs, s0 =>
+    match resolveAlias file fa a s0 with
+    | .error e => .error e
+    | .ok s =>
     -- `if name in memo: val = memo[name] else: val = <Array>._read(h5_group, memo)`
     let r : M (Nat × RSt) := match s.memo.lookup a.fieldname with
       | some o => .ok (o, s)
